@@ -123,7 +123,7 @@ def strat():
 def subchecks():
     return [
         SubCheck(name="products_and_pairings", mode="given", strategy=strat, run_case=run_case,
-                 counts={"quick": 200, "thorough": 20000}, shards={"quick": 4, "thorough": 16}, clear_every=50,
+                 counts={"quick": 200, "thorough": 20000}, shards={"quick": 4, "thorough": 16}, clear_every=25,
                  min_nontrivial_frac=0.3,
                  doc="interior and per-facet border space-time batches vs product / pairing of the factors drawn from the same state"),
     ]
